@@ -5,11 +5,10 @@ from props import sqlsched_gen as G
 ID = "C25"
 HARNESS_PKG = "c25"
 HARNESS_RUNNER = "c25"
-COQ_TARGETS = ["theories/C25/Corr.vo"]
-COQ_CORR_MODULE = "C23.Model C23.Spec C23.Corr C25.Model C25.Spec C25.Corr"
-COQ_CASE_TYPE = "C25.Corr.case"
-COQ_CHECK = "C25.Corr.check_case"
-COQ_MODEL_OBS = "(fun c => C25.Corr.model_obs (fst c))"
+COQ_TARGETS = ["theories/C25/Corr2.vo"]
+COQ_CORR_MODULE = "C23.Model C23.Spec C23.Corr C25.Model C25.Spec C25.Corr C25.Keyless C25.Corr2"
+COQ_CASE_TYPE = "C25.Corr2.acase"
+COQ_CHECK = "C25.Corr2.check_any"
 COQ_SHARD = 400
 DESIGN_REF = "§5 C25"
 TECHNIQUE = ("Coq proof (invariant over every writer-operation sequence: incrementally maintained index = index rebuilt from the rows, for any index "
@@ -17,27 +16,96 @@ TECHNIQUE = ("Coq proof (invariant over every writer-operation sequence: increme
 LEVEL_TEXT = ("Proof (F/M for DML and row edits of merges; partial overall): for an arbitrary index-key function of the row (single column, multi-column, "
               "prefix) and every sequence of writer operations Insert/Update/Delete — which is also what a transaction merge or fast-forward applies to the "
               "secondary indexes — Coq proves that the index contains exactly one entry per row, derived from the row's current values, and equals the "
-              "index rebuilt from the rows. Partial: keyless-table indexes, partial-index predicates, virtual columns, DDL rebuild paths and the "
-              "branch-level operations (dolt_merge, cherry-pick, revert, rebase, conflict resolution) are covered only in so far as they reduce to row edits; "
-              "they are not driven by this check's generator.")
+              "index rebuilt from the rows. Row edits of dolt_merge / cherry-pick / revert / conflict resolution are writer operations with the LEFT pre-image "
+              "(edits_mirror_preserved); keyless tables: the entry of a row value is present iff its cardinality is positive, for every sequence of INSERT / "
+              "DELETE..LIMIT / UPDATE..LIMIT (keyless_mirror_preserved). Both are driven by the generator: forced-commit merges (incl. NOT NULL added on one side, "
+              "NULL set on the other, indexed column changed), conflicts resolved --ours/--theirs, cherry-pick, revert, index rebuild; keyless duplicates with "
+              "partial deletes / updates. Partial: partial-index predicates, virtual columns, rebase, prefix indexes on the engine side.")
 LEVEL_NOTE = ("Trusted: Coq kernel, Go harness + Python glue; the planner answering the per-value queries from the secondary index alone (checked on every "
               "case through EXPLAIN: IndexedTableAccess on the covering index). Modelled, not verified: prolly map Put/Delete (a set of entries), the engine's "
               "choice of old/new row passed to the writers, unique-key checking.")
-THEOREMS = ["mirror_preserved", "mirror_from_empty", "incremental_is_rebuild", "one_entry_per_row"]
+THEOREMS = ["mirror_preserved", "mirror_from_empty", "incremental_is_rebuild", "one_entry_per_row",
+            "edits_mirror_preserved", "rebuild_mirrors", "keyless_mirror_preserved", "keyless_mirror_from_empty", "keyless_partial_delete_keeps_entry"]
 RULE = ("C23 schedules (2-4 sessions, DML on overlapping rows, commits with transaction merges, autocommit sessions) run on t(pk,a,b) with KEY ia(a) and "
         "KEY iba(b,a); after the schedule every index is read value by value (NULL, 0..6) with covering queries, then dropped, re-created and read again; "
         "non-trivial = a committed update/delete of an indexed column; distinct by schedule content")
 ASSUMPTIONS = ["indexed values stay within NULL, 0..6 for the per-value queries (larger values are not queried on either side)"]
-REQUIRED_TAGS = ["commit-ok", "merge-nonff", "cellwise-merge", "uses-index", "index-nonempty", "null-key"]
+REQUIRED_TAGS = ["commit-ok", "merge-nonff", "cellwise-merge", "uses-index", "index-nonempty", "null-key",
+                 "vc-case", "merge-notnull-violation-indexed-col", "cherry-pick-index", "resolve-index", "revert-index", "merge-unique-or-check-free",
+                 "keyless-case", "keyless-index-partial-delete-2to1", "keyless-delete-all", "keyless-update-indexed", "keyless-null-key"]
 
 VAL_ORDER = {-1: 0, 0: 1, 1: 2, 2: 3, 3: 4, 4: 5, 5: 6, 6: 7}
 
 
+def _dml(rng, keys=(1, 2, 3, 4)):
+    st = G.gen_stmt(rng, 0, list(keys))
+    while st[1] in (G.K_BEGIN, G.K_COMMIT, G.K_ROLLBACK, G.K_SELECT, G.K_SELKEY):
+        st = G.gen_stmt(rng, 0, list(keys))
+    return st
+
+
+def gen_vc(rng):
+    init = [[k, G._val(rng), G._val(rng)] for k in G.KEYS if rng.random() < 0.7] or [[1, 0, 0]]
+    nn = rng.random() < 0.45
+    left = [_dml(rng) for _ in range(rng.randint(1, 4))]
+    right = [_dml(rng) for _ in range(rng.randint(1, 4))]
+    if nn:
+        # the left branch puts NULLs into b, the right branch changes the indexed column a of the same rows
+        for r in rng.sample(init, min(len(init), rng.randint(1, 2))):
+            left.append([0, G.K_UPDATE, r[0], 1, -1])
+            if rng.random() < 0.8:
+                right.append([0, G.K_UPDATE, r[0], 0, rng.randint(0, 3)])
+        right = [st for st in right if not (st[1] == G.K_INSERT and st[4] < 0) and not (st[1] == G.K_UPDATE and st[3] == 1 and st[4] < 0)]
+    return {"mode": "vc", "init": init, "left": left, "right": right, "notnull": nn,
+            "op": "cherry" if rng.random() < 0.3 else "merge", "resolve": rng.choice(["ours", "theirs"]),
+            "revert": rng.random() < 0.35}
+
+
+def gen_keyless(rng):
+    vals_a = [-1, 0, 1, 1, 2]
+    rows = []
+    steps = []
+    for _ in range(rng.randint(5, 14)):
+        r = rng.random()
+        if r < 0.4 or not rows:
+            a, b = rng.choice(vals_a), rng.choice([-1, 0, 1])
+            steps.append([0, a, b, rng.randint(1, 3), 0]); rows.append((a, b))
+        else:
+            a, b = rng.choice(rows)
+            if r < 0.7:
+                steps.append([1, a, b, rng.randint(1, 3), 0])
+            elif r < 0.85:
+                z = rng.choice([-1, 0, 1, 2]); steps.append([2, a, b, rng.randint(1, 2), z]); rows.append((a, z))
+            else:
+                z = rng.choice([-1, 0, 1, 2, 3]); steps.append([3, a, b, rng.randint(1, 2), z]); rows.append((z, b))
+    return {"mode": "keyless", "steps": steps}
+
+
+FIXED_VC = [
+    # right adds NOT NULL to b and changes the indexed column a of row 1; left sets b = NULL on row 1
+    {"mode": "vc", "init": [[1, 0, 0], [2, 1, 1]], "left": [[0, 5, 1, 1, -1]], "right": [[0, 5, 1, 0, 2]], "notnull": True, "op": "merge", "resolve": "ours", "revert": False},
+    {"mode": "vc", "init": [[1, 0, 0], [2, 1, 1]], "left": [[0, 5, 1, 0, 1], [0, 4, 3, 2, 2]], "right": [[0, 5, 1, 0, 2], [0, 6, 2, 0, 0]], "notnull": False, "op": "merge", "resolve": "theirs", "revert": True},
+    {"mode": "vc", "init": [[1, 0, 0], [2, 1, 1]], "left": [[0, 5, 1, 0, 1]], "right": [[0, 5, 1, 0, 2]], "notnull": False, "op": "merge", "resolve": "ours", "revert": False},
+    {"mode": "vc", "init": [[1, 0, 0], [2, 1, 1]], "left": [[0, 5, 1, 1, 2]], "right": [[0, 5, 1, 0, 2], [0, 4, 4, 1, 1]], "notnull": False, "op": "cherry", "resolve": "ours", "revert": False},
+    {"mode": "vc", "init": [[1, 0, 0], [2, 1, 1]], "left": [[0, 5, 2, 0, 3]], "right": [[0, 5, 1, 0, 2], [0, 6, 2, 0, 0]], "notnull": False, "op": "cherry", "resolve": "theirs", "revert": False},
+]
+FIXED_KL = [
+    # a row stored twice, one copy deleted: the index entry must stay
+    {"mode": "keyless", "steps": [[0, 1, 0, 2, 0], [1, 1, 0, 1, 0], [1, 1, 0, 1, 0]]},
+    {"mode": "keyless", "steps": [[0, 1, 0, 3, 0], [0, 1, 2, 1, 0], [1, 1, 0, 1, 0], [2, 1, 0, 1, 5], [3, 1, 0, 1, 2], [0, -1, 1, 2, 0], [3, -1, 1, 1, 1], [1, -1, 1, 5, 0]]},
+]
+
+
 def gen_cases(rng, tier):
-    n = 250 if tier == "quick" else 8000
+    n = 170 if tier == "quick" else 8000
     cases = [dict(c) for c in G.FIXED_TXN]
     while len(cases) < n:
         cases.append(G.gen_one_txn(rng))
+    cases += [dict(c) for c in FIXED_VC + FIXED_KL]
+    for _ in range(90 if tier == "quick" else 3000):
+        cases.append(gen_vc(rng))
+    for _ in range(90 if tier == "quick" else 3000):
+        cases.append(gen_keyless(rng))
     return cases
 
 
@@ -47,7 +115,66 @@ def _entries(rows):
     return cq_list("(%s, %d)" % (cq_list(G.cq_cell(v) for v in r[:-1]), r[-1]) for r in rs)
 
 
+def _krow(r):
+    return "(%s, %s)" % (G.cq_cell(r[0]), G.cq_cell(r[1]))
+
+
+def _kl_universe(case):
+    rows = set()
+    for k, a, b, n, z in case["steps"]:
+        rows.add((a, b))
+        if k == 2:
+            rows.add((a, z))
+        if k == 3:
+            rows.add((z, b))
+    return sorted(rows)
+
+
+def _kop(st):
+    k, a, b, n, z = st
+    r = _krow((a, b))
+    if k == 0:
+        return "KIns %s %d" % (r, n)
+    if k == 1:
+        return "KDel %s %d" % (r, n)
+    if k == 2:
+        return "KUpd %s %s %d" % (r, _krow((a, z)), n)
+    return "KUpd %s %s %d" % (r, _krow((z, b)), n)
+
+
+def coq_case_vc(case, out):
+    o = out.get("obs")
+    if o is None or out.get("err") or out.get("panic"):
+        return "BV ({| v_U := []; v_scans := [(0, [])] |}, {| vo_idx := []; vo_uses := false |})"
+    keys = sorted(set(r[0] for p in o["points"] for r in p["full"]))
+    scans = cq_list("(%d, %s)" % (p["label"], cq_list(G.cq_row(r) for r in p["full"])) for p in o["points"])
+    idx = cq_list("(%s, %s)" % (_entries(p["bya"]), _entries(p["byb"])) for p in o["points"])
+    return "BV ({| v_U := %s; v_scans := %s |}, {| vo_idx := %s; vo_uses := %s |})" % (
+        cq_list(str(k) for k in keys), scans, idx, "true" if o["usesidx"] else "false")
+
+
+def coq_case_kl(case, out):
+    o = out.get("obs")
+    inp = "{| kl_rows := %s; kl_ops := %s |}" % (cq_list(_krow(r) for r in _kl_universe(case)), cq_list(_kop(st) for st in case["steps"]))
+    if o is None or out.get("err") or out.get("panic"):
+        return "BK (%s, {| ko_points := []; ko_rebuilt := []; ko_uses := false |})" % inp
+    order = lambda rows: sorted(rows, key=lambda r: (VAL_ORDER.get(r[0], 99), r[1]))
+    pts = cq_list("{| kp_aff := %d; kp_scan := %s; kp_bya := %s |}" % (
+        max(p["aff"], 0) if p["err"] == 0 else 999, cq_list(_krow(r) for r in sorted(p["scan"])), cq_list(_krow(r) for r in order(p["bya"])))
+        for p in o["points"])
+    return "BK (%s, {| ko_points := %s; ko_rebuilt := %s; ko_uses := %s |})" % (
+        inp, pts, cq_list(_krow(r) for r in order(o["rebuilt"])), "true" if o["usesidx"] else "false")
+
+
 def coq_case(case, out):
+    if case.get("mode") == "vc":
+        return coq_case_vc(case, out)
+    if case.get("mode") == "keyless":
+        return coq_case_kl(case, out)
+    return "B1 " + coq_case_txn(case, out)
+
+
+def coq_case_txn(case, out):
     o = out.get("obs")
     inp = G.cq_input(case)
     if o is None or out.get("err") or out.get("panic"):
@@ -57,10 +184,75 @@ def coq_case(case, out):
         _entries(o["bya"]), _entries(o["byb"]), _entries(o["bya2"]), _entries(o["byb2"]), "true" if o["usesidx"] else "false"))
 
 
+def classify_vc(case, o):
+    t = {"vc-case"}
+    if o["conflicts"] > 0:
+        t.add("resolve-index"); t.add("resolve-" + case["resolve"])
+    if case["op"] == "cherry":
+        t.add("cherry-pick-index")
+    if any(p["label"] == 2 and p["err"] == 0 for p in o["points"]):
+        t.add("revert-index")
+    vt = set(v[0] for v in o["viol"])
+    if 4 in vt:
+        t.add("merge-notnull-violation")
+        # a violating row whose indexed column a was changed by the right branch
+        vk = set(v[1] for v in o["viol"] if v[0] == 4)
+        if any(st[1] in (G.K_UPDATE, G.K_UPDADD) and st[3] == 0 and st[2] in vk for st in case["right"]):
+            t.add("merge-notnull-violation-indexed-col")
+    if not vt and o["conflicts"] == 0:
+        t.add("merge-unique-or-check-free")
+    if any(p["err"] for p in o["points"]):
+        t.add("vc-op-error")
+    if o["points"][0]["full"] != o["points"][1]["full"]:
+        t.add("nontrivial")
+    if o["usesidx"]:
+        t.add("uses-index")
+    return sorted(t)
+
+
+def classify_kl(case, o):
+    t = {"keyless-case", "nontrivial"}
+    card = {}
+    for st, p in zip(case["steps"], o["points"]):
+        k, a, b, n, z = st
+        c = card.get((a, b), 0)
+        if k == 0:
+            card[(a, b)] = c + n
+            if a < 0:
+                t.add("keyless-null-key")
+        elif k == 1 and c > 0:
+            m = min(n, c)
+            if c == 2 and m == 1:
+                t.add("keyless-index-partial-delete-2to1")
+            elif c - m > 0:
+                t.add("keyless-index-partial-delete")
+            else:
+                t.add("keyless-delete-all")
+            card[(a, b)] = c - m
+        elif k in (2, 3) and c > 0:
+            new = (a, z) if k == 2 else (z, b)
+            if new != (a, b):
+                m = min(n, c)
+                card[(a, b)] = c - m
+                card[new] = card.get(new, 0) + m
+                t.add("keyless-update-indexed" if k == 3 else "keyless-update-other")
+                if c - m > 0:
+                    t.add("keyless-partial-update")
+        if p["err"]:
+            t.add("keyless-stmt-error")
+    if o["usesidx"]:
+        t.add("uses-index")
+    return sorted(t)
+
+
 def classify(case, out):
     o = out.get("obs")
     if o is None:
         return ["panic"]
+    if case.get("mode") == "vc":
+        return classify_vc(case, o)
+    if case.get("mode") == "keyless":
+        return classify_kl(case, o)
     fake = {"obs": {"steps": [{"err": e, "rows": [], "aff": 0} for e in o["errs"]], "final": o["full"]}}
     t = [x for x in G.classify_txn(case, fake)]
     if o["usesidx"]:
@@ -76,5 +268,33 @@ def nontrivial(case, out):
     return "nontrivial" in classify(case, out)
 
 
-shrink_candidates = G.shrink_txn
-neighbours = G.neighbours_txn
+_SHRINK_BUDGET = [30]   # each candidate costs a harness run and a coqc start
+
+
+def shrink_candidates(case):
+    for c in _shrink_all(case):
+        if _SHRINK_BUDGET[0] <= 0:
+            return
+        _SHRINK_BUDGET[0] -= 1
+        yield c
+
+
+def _shrink_all(case):
+    if case.get("mode") == "vc":
+        for f in ("left", "right", "init"):
+            for i in range(len(case[f])):
+                yield dict(case, **{f: case[f][:i] + case[f][i + 1:]})
+        if case["revert"]:
+            yield dict(case, revert=False)
+        return
+    st = case["steps"]
+    for i in range(len(st)):
+        yield dict(case, steps=st[:i] + st[i + 1:])
+
+
+def neighbours(case, rng):
+    if case.get("mode") == "vc":
+        return [gen_vc(rng) for _ in range(40)]
+    if case.get("mode") == "keyless":
+        return [gen_keyless(rng) for _ in range(40)]
+    return G.neighbours_txn(case, rng)
